@@ -23,6 +23,8 @@ pub enum Point {
     ReceiverRemoved(usize),
     /// `handle_commands`: about to call the reporter with this many records.
     BeforeReport(usize),
+    /// `handle_commands`, second drain pass: about to drain the receiver at this position again.
+    SecondPass(usize),
 }
 
 type Hook = Arc<dyn Fn(Point) + Send + Sync>;
